@@ -175,7 +175,7 @@ int main(int argc, char** argv) {
         };
         if (std::string(fmt) == "pbf") cover.push_back({fmt, pool, "2", 7, false, true, false, true});
         if (std::string(fmt) == "pbf" && pool == 2) cover.push_back({"pbfz", pool, "2", 7, false, true, true, false});      // zlib blobs: two workers decompress at the same time (uncompress() is a scheduling point)
-        if (std::string(fmt) == "pbf" && pool == 2) cover.push_back({"pbfz", 3, "", 2, false, true, true, false});         // three workers, ways only, sorted file: blobs of unselected types come back empty and may finish in any order (seed C05f)
+        if (std::string(fmt) == "pbf" && pool == 2) cover.push_back({"pbfz", 3, "2", 2, false, true, true, false});         // three workers, ways only, sorted file: blobs of unselected types come back empty and may finish in any order (seed C05f)
         { Cfg sc{fmt, pool, "2", 7, false, true, true, false}; sc.slow = true; cover.push_back(sc); }
         { Cfg bc{fmt, pool, "2", 7, false, true, true, false}; bc.big = true; cover.push_back(bc); }       // objects larger than the parser buffers
         { Cfg bc{fmt, pool, "3", 6, true, true, true, true}; bc.big = true; cover.push_back(bc); }         // ... with buffers_type::single and the node-less mask (a big way is the first selected object)      // pipeline ahead of the consumer: every queue full before each read()
@@ -208,8 +208,11 @@ int main(int argc, char** argv) {
     add({"opl", 32, "", 7, false, true, true, false}, 0, true, 1);
     add({"pbf", 32, "", 7, false, true, true, false}, 0, true, 1);
 
+    std::string only;      // --only <substring of a configuration name>: targeted runs while developing
+    for (size_t i = 0; i + 1 < m.rest().size(); ++i) if (m.rest()[i] == "--only") only = m.rest()[i + 1];
     auto run_job = [&](Job& j, int b) {
         std::string name = std::string(j.o.delay_bounded ? "D:" : "P:") + j.c.name();
+        if (!only.empty() && name.find(only) == std::string::npos) return;
         vsched::Options o = j.o; o.min_bound = b; o.max_bound = b;
         m.run(name, [&] { body(j.c); }, o);
     };
@@ -219,7 +222,9 @@ int main(int argc, char** argv) {
         // smallest bounds first everywhere; thorough: the cover set to bound 2 before the configuration product, bound 3 after it
         for (int b = 0; b <= (T ? 2 : 1); ++b) for (size_t i = 0; i < n_deep; ++i) if (b <= jobs[i].o.max_bound) run_job(jobs[i], b);
         for (size_t i = n_deep; i < jobs.size(); ++i) run_job(jobs[i], 0);
-        for (int b = (T ? 3 : 2); b <= 4; ++b) for (size_t i = 0; i < n_deep; ++i) if (b <= jobs[i].o.max_bound) run_job(jobs[i], b);
+        // the highest bounds: configurations with the fewest decision points per execution first (PBF ~120, o5m ~165, OPL ~230, XML ~450),
+        // so that a deadline cuts the most expensive ones
+        for (int b = (T ? 3 : 2); b <= 4; ++b) for (const char* f : {"pbfz", "pbf", "o5m", "opl", "osm"}) for (size_t i = 0; i < n_deep; ++i) if (jobs[i].c.fmt == f && b <= jobs[i].o.max_bound) run_job(jobs[i], b);
         if (T) for (size_t i = n_deep; i < jobs.size(); ++i) if (jobs[i].o.max_bound >= 1) run_job(jobs[i], 1);
     }
     int rc = m.finish();
